@@ -6,6 +6,8 @@ package main
 import (
 	"fmt"
 	"go/types"
+	"os"
+	"path/filepath"
 	"runtime/debug"
 	"sort"
 	"strings"
@@ -607,4 +609,19 @@ func referencedGlobals(fn *ssa.Function, depth int, seen map[*ssa.Function]bool)
 		}
 	}
 	return out
+}
+
+// smtLemmaUnit wraps a hand-posed SMT-LIB lemma file as a unit with one obligation.
+func smtLemmaUnit(p *Program, verif, name string) *Unit {
+	u := &Unit{Key: "smt-lemma:" + name, Kind: "lemma"}
+	path := filepath.Join(verif, "contracts", "lemmas", name)
+	data, err := os.ReadFile(path)
+	if err != nil {
+		u.Err = "lemma file missing: " + path
+		return u
+	}
+	e := p.newEncFor("smt-lemma:" + name)
+	u.Enc = e
+	e.addObl(&Obligation{Name: "smt-lemma:" + name, Kind: "lemma", Func: "smt-lemma:" + name, Text: "hand-posed lemma " + name + " (solver string theory)", Raw: string(data), Pos: "contracts/lemmas/" + name})
+	return u
 }
